@@ -566,18 +566,55 @@ def reference_process(fl, e, held):
     for block in e.rule_blocks:
         if not block.enabled:
             continue
-        for rule in block.rules:            # General activation: every enabled rule fires, in order, on the outputs accumulated so far
-            if not rule.is_loaded():
-                continue
-            d = np.float64(rule.weight) * _sem_obj(fl, rule.antecedent.expression, block.conjunction, block.disjunction, state)
+        import operator as _op
+        act = block.activation
+        kind = type(act).__name__
+
+        def degree_of(rule):
+            return np.float64(rule.weight) * _sem_obj(fl, rule.antecedent.expression, block.conjunction, block.disjunction, state)
+
+        def contribute(rule, d):
             if not rule.enabled:
-                continue
+                return
             for c in rule.consequent.conclusions:
                 if c.variable.enabled:
                     dd = d
                     for h in reversed(c.hedges):
                         dd = np.float64(h.hedge(dd))
                     state[c.variable.name].append((c.term, _clean(dd), block.implication))
+
+        loaded = [r for r in block.rules if r.is_loaded()]
+        if kind in ("General", "First", "Last", "Threshold"):
+            # one pass: every rule is evaluated on the outputs accumulated SO FAR (a selected rule contributes before the next rule is evaluated)
+            count = 0
+            for rule in (reversed(loaded) if kind == "Last" else loaded):
+                d = degree_of(rule)
+                if kind == "General":
+                    sel = True
+                elif kind in ("First", "Last"):
+                    sel = bool(count < act.rules and d > 0.0 and d >= act.threshold)
+                else:
+                    cmp = {"<": _op.lt, "<=": _op.le, "==": _op.eq, "!=": _op.ne, ">=": _op.ge, ">": _op.gt}[act.comparator.value]
+                    sel = bool(cmp(d, act.threshold))
+                if sel:
+                    count += 1
+                    contribute(rule, d)
+        elif kind in ("Highest", "Lowest", "Proportional"):
+            # two phases by definition: all degrees on the outputs at block entry, then the selected rules fire
+            degs = [(degree_of(rule), i, rule) for i, rule in enumerate(loaded)]
+            pos = [(d, i, r) for d, i, r in degs if d > 0.0]
+            if kind == "Proportional":
+                tot = np.float64(0.0)
+                for d, i, r in pos:
+                    tot = tot + d
+                for d, i, r in pos:
+                    contribute(r, np.float64(d / tot))
+            else:
+                pos.sort(key=lambda x: ((-x[0]) if kind == "Highest" else x[0], x[1]))
+                for d, i, r in pos[:max(0, act.rules)]:
+                    contribute(r, d)
+        else:
+            raise KeyError(kind)
     out = {}
     for ov in e.output_variables:
         if not ov.enabled:
@@ -638,7 +675,11 @@ def _gen_engine(fl, rng):
         conj = rng.choice([fl.Minimum(), fl.AlgebraicProduct(), fl.NormLambda(lambda a, b: 0.75 * a + 0.25 * b * b)])
         disj = rng.choice([fl.Maximum(), fl.AlgebraicSum(), fl.NormLambda(lambda a, b: 0.5 * a + 0.5 * b * b)])
         e.rule_blocks.append(fl.RuleBlock(name=f"b{b}", enabled=rng.random() > 0.15, conjunction=conj, disjunction=disj,
-                                          implication=rng.choice([fl.Minimum(), fl.AlgebraicProduct()]), activation=fl.General(), rules=rules))
+                                          implication=rng.choice([fl.Minimum(), fl.AlgebraicProduct()]), rules=rules,
+                                          activation=rng.choice([fl.General, fl.General, lambda: fl.First(rng.choice([1, 2, 5]), rng.choice([0.0, 0.25])),
+                                                                 lambda: fl.Last(rng.choice([1, 2, 5]), rng.choice([0.0, 0.25])), lambda: fl.Highest(rng.choice([1, 2, 5])),
+                                                                 lambda: fl.Lowest(rng.choice([1, 2, 5])), fl.Proportional,
+                                                                 lambda: fl.Threshold(rng.choice(["<", "<=", "==", "!=", ">=", ">"]), rng.choice([0.0, 0.25, 0.5]))])()))
     return e
 
 
@@ -664,7 +705,7 @@ def replay_pipeline(fl, FA, vals=None, seed=0, budget=150, exclude_known=True, *
                 continue
             e.process()
             cases += 1
-            seen.add((len(e.input_variables), len(e.output_variables), len(e.rule_blocks), tuple(r.text for b in e.rule_blocks for r in b.rules)))
+            seen.add((len(e.input_variables), len(e.output_variables), len(e.rule_blocks), tuple(type(b.activation).__name__ for b in e.rule_blocks), tuple(r.text for b in e.rule_blocks for r in b.rules)))
             for ov in e.output_variables:
                 got = float(np.take(np.asarray(ov.value, dtype=float), -1))
                 got_terms = [(a.term.name, float(a.degree)) for a in ov.fuzzy.terms]
@@ -675,7 +716,7 @@ def replay_pipeline(fl, FA, vals=None, seed=0, budget=150, exclude_known=True, *
                     return {"failed": True, "cases": cases, "expected": {"value": j(exp[ov.name]), "fuzzy": exp_terms}, "observed": {"value": j(got), "fuzzy": got_terms},
                             "call": f"output {ov.name} (enabled={ov.enabled}, {type(ov.defuzzifier).__name__}) of engine with inputs "
                                     f"{[(v.name, j(float(v.value)), v.enabled) for v in e.input_variables]}, blocks "
-                                    f"{[(b.name, b.enabled, [(r.text, r.enabled) for r in b.rules]) for b in e.rule_blocks]}, step {step}"}
+                                    f"{[(b.name, b.enabled, str(b.activation), [(r.text, r.enabled) for r in b.rules]) for b in e.rule_blocks]}, step {step}"}
     return {"failed": False, "cases": cases, "distinct": len(seen)}
 
 
@@ -904,6 +945,7 @@ def replay_weighted(fl, FA, vals=None, seed=0, budget=300, exclude_known=True, *
         "mixed": lambda: [fl.Constant("a", 2.0), fl.Ramp("b", 0.0, 10.0), fl.Triangle("c", 0.0, 5.0, 10.0), fl.Constant("d", 7.0)],
     }
     aggs = [None, fl.UnboundedSum(), fl.Maximum(), fl.AlgebraicSum(), fl.BoundedSum(), fl.EinsteinSum(), fl.NormalizedSum(), fl.DrasticSum(), fl.HamacherSum(), fl.NilpotentMaximum()]
+    shared, dzs = fl.Aggregated("o", 0.0, 10.0, None, []), {}
     for it in range(budget):
         pname = rng.choice(list(pools))
         pool = pools[pname]()[:rng.randrange(1, 5)]
@@ -916,14 +958,22 @@ def replay_weighted(fl, FA, vals=None, seed=0, budget=300, exclude_known=True, *
             t = rng.choice(pool)
             d = np.array([rng.choice([0.0, 0.25, 0.5, 1.0, 0.75]) for _ in range(3)]) if batch else rng.choice([0.0, 0.25, 0.5, 1.0, 0.75, 0.1])
             acts.append((t, d))
-        fuzzy = fl.Aggregated("o", 0.0, 10.0, agg, [fl.Activated(t, d, fl.Minimum()) for t, d in acts])
+        # every other history re-uses ONE fuzzy output object and the same defuzzifier objects, as an engine does (OutputVariable.fuzzy is cleared and
+        # refilled by every process()): a result remembered from an earlier content of the same object shows here
+        reuse = it % 2 == 1
+        if reuse:
+            fuzzy = shared
+            fuzzy.terms.clear(); fuzzy.aggregation = agg
+            fuzzy.terms.extend(fl.Activated(t, d, fl.Minimum()) for t, d in acts)
+        else:
+            fuzzy = fl.Aggregated("o", 0.0, 10.0, agg, [fl.Activated(t, d, fl.Minimum()) for t, d in acts])
         before = [(a.term.name, np.array(a.degree, dtype=float).copy()) for a in fuzzy.terms]
         for dcls in (fl.WeightedAverage, fl.WeightedSum):
             for typ in ("Automatic", "TakagiSugeno", "Tsukamoto"):
-                dz = dcls(typ)
+                dz = dzs.setdefault((dcls, typ), dcls(typ)) if reuse else dcls(typ)
                 kind = _kind_reference(fl, [t for t, _ in acts])
                 eff = typ if typ != "Automatic" else kind
-                desc = f"{dcls.__name__}('{typ}') on activations {[(t.name + ':' + type(t).__name__, np.asarray(d).tolist()) for t, d in acts]} aggregation {type(agg).__name__ if agg else None}"
+                desc = ("[fuzzy output object and defuzzifier re-used from the previous cases] " if reuse else "") + f"{dcls.__name__}('{typ}') on activations {[(t.name + ':' + type(t).__name__, np.asarray(d).tolist()) for t, d in acts]} aggregation {type(agg).__name__ if agg else None}"
                 if eff == "mixed":
                     try:
                         dz.defuzzify(fuzzy)
